@@ -1,1 +1,277 @@
-//! placeholder
+//! C15: the ABI compatibility ledger (`savefile_abi::verify_compatiblity`). Generated run
+//! sequences over the revisions of a family against a fresh directory; the model records the
+//! definition of each version at first sight and predicts Ok / Err of every later run.
+
+use crate::*;
+use abigen::model::{backward_compatible, MethodSig};
+use proptest::prelude::*;
+use serde::{Deserialize, Serialize};
+use std::sync::atomic::{AtomicU64, Ordering};
+
+#[derive(Clone, Copy, Debug, PartialEq, Eq, Serialize, Deserialize)]
+pub enum Step {
+    /// run the current revision again
+    Repeat,
+    /// run the next compatible revision (the last one again if there is none)
+    Advance,
+    /// run the k-th labelled breaking revision (modulo their number; Repeat if the family has none)
+    Breaking(usize),
+    /// run the previous compatible revision again (an older build of the interface)
+    Back,
+}
+
+#[derive(Clone, Debug, Serialize, Deserialize)]
+pub struct Seq {
+    /// directory pre-populated with the files of this compatible revision (index into the
+    /// compatible chain), as if checked in earlier; None = empty directory
+    pub start: Option<usize>,
+    pub steps: Vec<Step>,
+}
+
+pub fn seq_strategy(fam: &Family) -> BoxedStrategy<Seq> {
+    let nc = fam.compat_revs().len();
+    let step = prop_oneof![
+        3 => Just(Step::Repeat),
+        4 => Just(Step::Advance),
+        2 => (0usize..4).prop_map(Step::Breaking),
+        1 => Just(Step::Back),
+    ];
+    (prop_oneof![2 => Just(None), 1 => (0..nc).prop_map(Some)], proptest::collection::vec(step, 1..=7)).prop_map(|(start, steps)| Seq { start, steps }).boxed()
+}
+
+static DIRCOUNT: AtomicU64 = AtomicU64::new(0);
+
+struct TempDir(std::path::PathBuf);
+impl TempDir {
+    fn new(tag: &str) -> TempDir {
+        let n = DIRCOUNT.fetch_add(1, Ordering::Relaxed);
+        let p = std::env::temp_dir().join(format!("verif-c15-{}-{}-{}", std::process::id(), tag, n));
+        let _ = std::fs::remove_dir_all(&p);
+        std::fs::create_dir_all(&p).expect("temp dir");
+        TempDir(p)
+    }
+    fn path(&self) -> &str {
+        self.0.to_str().unwrap()
+    }
+    fn files(&self) -> Vec<String> {
+        let mut v: Vec<String> = std::fs::read_dir(&self.0).map(|rd| rd.flatten().map(|e| e.file_name().to_string_lossy().to_string()).collect()).unwrap_or_default();
+        v.sort();
+        v
+    }
+}
+impl Drop for TempDir {
+    fn drop(&mut self) {
+        let _ = std::fs::remove_dir_all(&self.0);
+    }
+}
+
+fn file_name(fam: &Family, v: u32) -> String {
+    format!("savefile_{}_{}.schema", fam.name, v)
+}
+
+fn rev_label(fam: &Family, r: usize) -> String {
+    match &fam.revs[r].label {
+        RevLabel::Compat => format!("{} (version {}, compatible edits {:?})", fam.revs[r].module, fam.revs[r].version, fam.revs[r].edits),
+        RevLabel::Breaking { base, kind, method } => {
+            format!("{} (version {}, BREAKING {} of {} relative to {})", fam.revs[r].module, fam.revs[r].version, kind.label(), method, fam.revs[*base].module)
+        }
+    }
+}
+
+pub fn eval(fam: &Arc<Family>, drivers: &[Box<dyn Driver>], seq: &Seq, st: &mut Stats, counting: bool) -> Vec<Fail> {
+    let compat = fam.compat_revs();
+    let breaking = fam.breaking_revs();
+    let mut fails: Vec<Fail> = vec![];
+    let dir = TempDir::new("case");
+    let mut recorded: std::collections::BTreeMap<u32, (Vec<MethodSig>, usize)> = Default::default();
+    let mut trace: Vec<String> = vec![];
+    let asy = if fam.async_trait { "true" } else { "false" };
+    let fut = if fam.revs.iter().any(|r| r.methods.iter().any(|m| matches!(m.ret, RetKind::Future(_)))) { "true" } else { "false" };
+    let outcome = |e: &str| if e.starts_with("PANIC") { "panic" } else { "err" };
+    // position in the compatible chain
+    let mut cur: Option<usize> = None;
+    if let Some(s) = seq.start {
+        let r = compat[s];
+        let scratch = TempDir::new("pre");
+        match drivers[r].verify_ledger(scratch.path()) {
+            Ok(()) => {
+                for f in scratch.files() {
+                    let _ = std::fs::copy(scratch.0.join(&f), dir.0.join(&f));
+                }
+                for v in 0..=fam.revs[r].version {
+                    recorded.insert(v, (fam.definition_at(r, v), r));
+                }
+                trace.push(format!("pre-populated with the files of {}: {:?}", rev_label(fam, r), dir.files()));
+                cur = Some(s);
+            }
+            Err(e) => {
+                fails.push(fail(
+                    &[("check", "ledger_first_run_rejected"), ("async_trait", asy), ("interface_returns_boxed_future", fut), ("outcome", outcome(&e))],
+                    format!("the first run of {} over an empty directory failed: {}", rev_label(fam, r), e),
+                    json!({"family": fam.name}),
+                ));
+                return fails;
+            }
+        }
+    }
+    let mut prev_rev: Option<usize> = seq.start.map(|s| compat[s]);
+    let mut ok_revs: std::collections::BTreeSet<usize> = prev_rev.into_iter().collect();
+    let mut had_repeat = false;
+    let mut had_edit = false;
+    for (si, step) in seq.steps.iter().enumerate() {
+        let rev = match step {
+            Step::Repeat => prev_rev.unwrap_or(compat[0]),
+            Step::Advance => {
+                let n = match cur {
+                    None => 0,
+                    Some(c) => (c + 1).min(compat.len() - 1),
+                };
+                cur = Some(n);
+                compat[n]
+            }
+            Step::Back => {
+                let n = cur.unwrap_or(0).saturating_sub(1);
+                cur = Some(n);
+                compat[n]
+            }
+            Step::Breaking(k) => {
+                if breaking.is_empty() {
+                    prev_rev.unwrap_or(compat[0])
+                } else {
+                    breaking[k % breaking.len()]
+                }
+            }
+        };
+        if cur.is_none() && !fam.revs[rev].is_breaking() {
+            cur = compat.iter().position(|c| *c == rev);
+        }
+        if Some(rev) == prev_rev {
+            had_repeat = true;
+        } else if prev_rev.is_some() {
+            had_edit = true;
+        }
+        // model: the revision is acceptable iff it is backward compatible with every recorded version
+        let latest = fam.revs[rev].version;
+        let mut expect: Result<(), String> = Ok(());
+        for v in 0..=latest {
+            if let Some((old, from)) = recorded.get(&v) {
+                if let Err(why) = backward_compatible(&fam.definition_at(rev, v), old) {
+                    expect = Err(format!("version {} (recorded from {}): {}", v, fam.revs[*from].module, why));
+                    break;
+                }
+            }
+        }
+        let got = drivers[rev].verify_ledger(dir.path());
+        trace.push(format!(
+            "run {}: {} -> {} (model: {})",
+            si,
+            rev_label(fam, rev),
+            match &got {
+                Ok(()) => "Ok".to_string(),
+                Err(e) => format!("Err({})", e.chars().take(220).collect::<String>()),
+            },
+            match &expect {
+                Ok(()) => "Ok".to_string(),
+                Err(e) => format!("Err: {}", e),
+            }
+        ));
+        let extra = || json!({"family": fam.name, "trace": trace, "files": dir.files()});
+        match (&expect, &got) {
+            (Ok(()), Ok(())) => {
+                for v in 0..=latest {
+                    recorded.entry(v).or_insert_with(|| (fam.definition_at(rev, v), rev));
+                }
+                ok_revs.insert(rev);
+                let want: Vec<String> = {
+                    let mut w: Vec<String> = recorded.keys().map(|v| file_name(fam, *v)).collect();
+                    w.sort();
+                    w
+                };
+                if dir.files() != want {
+                    fails.push(fail(
+                        &[("check", "ledger_files"), ("async_trait", asy)],
+                        format!("after run {} the directory holds {:?}, expected one file per version seen: {:?}", si, dir.files(), want),
+                        extra(),
+                    ));
+                }
+            }
+            (Err(_), Err(_)) => {}
+            (Ok(()), Err(e)) => {
+                let unchanged = ok_revs.contains(&rev);
+                if unchanged {
+                    fails.push(fail(
+                        &[("check", "ledger_rerun_of_unchanged_interface_rejected"), ("async_trait", asy), ("interface_returns_boxed_future", fut), ("outcome", outcome(e))],
+                        format!("run {}: {} was accepted before and is unchanged, but is now rejected: {}", si, rev_label(fam, rev), e),
+                        extra(),
+                    ));
+                } else {
+                    let mut ed = fam.revs[rev].edits.clone();
+                    ed.sort();
+                    ed.dedup();
+                    fails.push(fail(
+                        &[("check", "ledger_compatible_revision_rejected"), ("async_trait", asy), ("interface_returns_boxed_future", fut), ("outcome", outcome(e))],
+                        format!("run {}: {} (edits {}) is backward compatible with every recorded version but was rejected: {}", si, rev_label(fam, rev), ed.join("+"), e),
+                        extra(),
+                    ));
+                }
+            }
+            (Err(why), Ok(())) => {
+                let bk = match &fam.revs[rev].label {
+                    RevLabel::Breaking { kind, .. } => kind.label(),
+                    RevLabel::Compat => "older_revision_lacks_recorded_method",
+                };
+                fails.push(fail(
+                    &[("check", "ledger_breaking_change_accepted"), ("break_kind", bk), ("async_trait", asy)],
+                    format!("run {}: {} breaks a recorded version ({}) but was accepted", si, rev_label(fam, rev), why),
+                    extra(),
+                ));
+            }
+        }
+        // files created by a failing run (versions before the failing one) are recorded as seen
+        if got.is_err() {
+            let present = dir.files();
+            for v in 0..=latest {
+                if !recorded.contains_key(&v) && present.contains(&file_name(fam, v)) {
+                    recorded.insert(v, (fam.definition_at(rev, v), rev));
+                }
+            }
+        }
+        prev_rev = Some(rev);
+    }
+    if counting {
+        st.evaluations += 1;
+        st.class_n("runs", seq.steps.len() as u64);
+        st.class(if seq.start.is_some() { "start.populated" } else { "start.empty" });
+        for s in &seq.steps {
+            st.class(match s {
+                Step::Repeat => "step.repeat",
+                Step::Advance => "step.advance",
+                Step::Breaking(_) => "step.breaking",
+                Step::Back => "step.back",
+            });
+        }
+        if fam.async_trait {
+            st.class("family.async_trait");
+        }
+        let runs = seq.steps.len() + seq.start.is_some() as usize;
+        if runs >= 2 && (had_repeat || had_edit) {
+            st.nontrivial.insert(vcore::rng::fnv64(format!("{}/{:?}", fam.name, seq).as_bytes()));
+        }
+        if st.samples.is_empty() && seq.steps.len() >= 3 {
+            st.sample(json!({"family": fam.name, "revisions": (0..fam.revs.len()).map(|r| rev_label(fam, r)).collect::<Vec<_>>(), "sequence": trace}));
+        }
+    }
+    fails
+}
+
+pub fn replay_value(fam: &Family, seq: &Seq, f: &Fail) -> Value {
+    json!({
+        "kind": "C15",
+        "family": fam.name,
+        "revisions": (0..fam.revs.len()).map(|r| render_rev(fam, r)).collect::<Vec<_>>(),
+        "defs": render_defs(fam),
+        "seq": seq,
+        "failure": f.detail,
+        "observed": f.extra,
+    })
+}
